@@ -27,6 +27,8 @@ WALL_CAP = {'quick': 600, 'thorough': 3000}
 OBJ_TAMPERS = ['out_value', 'out_script', 'add_output', 'remove_output', 'outpoint_n', 'outpoint_hash', 'sequence',
                'locktime', 'version', 'in_amount', 'sig_flip', 'sig_outsider', 'sig_other_digest', 'drop_sig',
                'drop_sig_pad', 'version_bytes', 'version_int', 'coinbase_flag_out_value']
+RESIGN_TAMPERS = ['out_value', 'out_script', 'add_output', 'remove_output', 'sequence', 'locktime', 'version',
+                  'version_bytes']
 BYTE_TAMPERS = ['out_value', 'out_script', 'add_output', 'remove_output', 'outpoint_n', 'outpoint_hash', 'sequence',
                 'locktime', 'version', 'in_amount', 'sig_flip', 'drop_sig', 'drop_sig_pad', 'add_null_input',
                 'sig_hashtype']
@@ -385,6 +387,31 @@ def check(ctx, case):
         if not applied:
             ctx.klass('tamper.not_applicable')
             return
+        if case.get('resign_one') is not None and tam['op'] in RESIGN_TAMPERS:
+            # after the change ONE input is signed again (its signers replace their signatures): with one input the
+            # transaction is correctly signed again, with several the other inputs still carry signatures for the
+            # old version - either way verify() has to agree with the interpreter on what the object serialises to
+            k2 = case['resign_one'] % len(plan['inputs'])
+            try:
+                keys2 = txplan.lib_keys(plan, k2)
+                for s_ in plan['inputs'][k2]['signers']:
+                    t.sign(keys2[s_], index_n=k2, replace_signatures=True)
+                raw_r = t.raw()
+            except Exception as e:
+                ctx.refusal('resign_one.%s' % type(e).__name__)
+                return
+            got, exc = _lib_verify(t)
+            try:
+                ref_ok, why = _ref_verdict(raw_r, plan, amounts)
+            except Exception as e:
+                ref_ok, why = False, 'unparseable %r' % e
+            ctx.klass('tamper.resign_one.' + ('valid_again' if ref_ok else 'others_stale'))
+            if bool(got) != ref_ok:
+                ctx.disc('resign_one.verify_%s_consensus_%s:%s' % (bool(got), ref_ok, tam['op']),
+                         'after tamper %s input %d was signed again (replace_signatures): verify() -> %r (%r), the '
+                         'consensus interpreter on the serialised transaction says %s %s (%s)' %
+                         (tam['op'], k2, got, exc, 'valid' if ref_ok else 'invalid:', why, kinds), case)
+            return
         got, exc = _lib_verify(t)
         raw2_pre = None
         if case.get('restore'):
@@ -534,7 +561,8 @@ def _strategy(ctx):
                       'b': draw(st.integers(0, 255))}
         return {'kind': 'verify', 'plan': plan, 'mode': mode, 'tamper': tamper, 'medium': medium,
                 # the object is (successfully) verified once before it is tampered with: verdicts may not be remembered
-                'verify_first': draw(st.booleans()), 'restore': draw(st.sampled_from([False, False, True]))}
+                'verify_first': draw(st.booleans()), 'restore': draw(st.sampled_from([False, False, True])),
+                'resign_one': draw(st.sampled_from([None, None, 0, 1, 2]))}
     return cases()
 
 
